@@ -46,6 +46,9 @@ def gen_case(rng, size, flavour=None):
         div_per_beat = Fraction(qd * 4, ts[1])
         measure_len = int(div_per_beat * ts[0])
     units = sorted({max(1, qd // k) for k in (1, 2, 3, 4)} | {qd, 2 * qd})
+    if qd >= 100 and rng.random() < 0.5:
+        # distinct score onsets only 1/480 beat apart (still far above the 1e-6 grouping tolerance)
+        units = sorted(set(units) | {1, 2, 3})
     pickup = 0
     if rng.random() < 0.35 and measure_len > 1:
         pickup = rng.choice([u for u in units if u < measure_len] or [0])
@@ -327,6 +330,16 @@ def oracle_roundtrip(case, obs, exp, sids, dppart, key):
         return [(key + "_ids", "decoded performance has notes %r, expected one per matched score note %r" % (sorted(dec), sorted(pairs)))]
     span = max(float(pna["onset_sec"][p]) for _, p in exp) - min(float(pna["onset_sec"][p]) for _, p in exp)
     tol_on = 2e-6 * max(1.0, span)
+    # standardized beat periods are rebuilt as z * std + mean from single-precision parameters: the
+    # rounding is absolute (relative to |mean| + |z * std|), not relative to the beat period itself
+    bp_abs_err = 0.0
+    params = obs["enc"][0]
+    if case["norm"] == "beat_period_standardized":
+        mu = float(params["beat_period_mean"][0])
+        bp_abs_err = 8 * F32 * (abs(mu) + max(abs(float(b) - mu) for b in params["beat_period"]))
+        sons = [float(sna["onset_beat"][s]) for s, _ in exp]
+        tol_on += bp_abs_err * (max(sons) - min(sons) + 1.0)
+    bp_of = {str(i): float(b) for i, b in zip(sids, params["beat_period"])}
     shifts = []
     for sid, (s, p) in sorted(pairs.items()):
         d = dec[sid][0]
@@ -337,7 +350,7 @@ def oracle_roundtrip(case, obs, exp, sids, dppart, key):
         shifts.append((on - float(pna["onset_sec"][p]), sid))
         pd = float(pna["duration_sec"][p])
         sd = float(sna["duration_beat"][s])
-        if abs(du - pd) > 1e-5 * pd + 1e-6:
+        if abs(du - pd) > 1e-5 * pd + 1e-6 + pd * bp_abs_err / max(bp_of.get(sid, 1.0), 1e-12):
             code = "_dur"
             if sd <= 0 and du == 0.0:
                 code = "_dur_grace"
@@ -543,7 +556,7 @@ def run(ctx):
                        "generated distinct score onsets differ by >= 1/480 beat, so float and exact grouping agree"]
     ctx.matchers["C18-K1"] = lambda r: isinstance(r, dict) and str(r.get("code", "")).endswith("_dur_grace")
     ctx.matchers["C18-K2"] = lambda r: isinstance(r, dict) and str(r.get("code", "")).endswith("_dur_floor")
-    ok, why = ctx.coq_props(expect_min=1)
+    ok, why = ctx.coq_props(expect_min=10)
     n_cases = 150 if ctx.tier == "quick" else 2200
     n_full = 0 if ctx.tier == "quick" else 80
     rng = ctx.rng
